@@ -14,7 +14,8 @@
  *
  * Environment (all optional):
  *   SIMIO_TRACE_FD   fd to log to
- *   SIMIO_READ       comma list for read(0): kN (at most N bytes) | i (EINTR) | e (EOF from now on) | xN (fail, errno N) | b (never delivers)
+ *   SIMIO_READ       comma list for read(0): kN (at most N bytes) | i (EINTR) | e (EOF from now on) | xN (fail, errno N) | b (never delivers) | p (no fault)
+ *   SIMIO_EOF_AT     absolute stdin offset after which the stream ends (the producer died exactly there)
  *   SIMIO_FLIPS      comma list off:xor — XOR the stdin byte at absolute offset off
  *   SIMIO_W1, SIMIO_W2   comma lists for write(1) / write(2): kN | i | xN
  *   SIMIO_BUDGET     max number of intercepted calls, then _exit(97)
@@ -48,6 +49,7 @@ static struct script rd, w1, w2;
 static struct { long off; unsigned char x; } flips[256];
 static int nflips = 0;
 static long stdin_off = 0;
+static long eof_at = -1;
 static int sticky_eof = 0;
 static long budget = -1, calls = 0;
 static int64_t clock_offset = 0, clock_step = 0;
@@ -109,6 +111,7 @@ static void init(void) {
         }
     }
     if ((e = getenv("SIMIO_BUDGET"))) budget = atol(e);
+    if ((e = getenv("SIMIO_EOF_AT"))) eof_at = atol(e);
     if ((e = getenv("SIMIO_CLOCK_OFFSET"))) clock_offset = atoll(e);
     if ((e = getenv("SIMIO_CLOCK_STEP"))) clock_step = atoll(e);
     if ((e = getenv("SIMIO_RAND_SEED"))) { rand_on = 1; rand_state = strtoull(e, NULL, 16) | 1; }
@@ -138,10 +141,13 @@ ssize_t read(int fd, void *buf, size_t count) {
     if (fd != 0) return real_read(fd, buf, count);
     spend();
     if (sticky_eof) { tr("r %zu 0 eof", count); return 0; }
+    if (eof_at >= 0 && stdin_off >= eof_at) { sticky_eof = 1; tr("r %zu 0 early-eof", count); return 0; }
     struct act *a = next(&rd);
     size_t want = count;
+    if (eof_at >= 0 && (long)want > eof_at - stdin_off) want = (size_t)(eof_at - stdin_off);
     if (a) {
         switch (a->kind) {
+        case 'p': break;
         case 'i': tr("r %zu -1 EINTR", count); errno = EINTR; return -1;
         case 'x': tr("r %zu -1 errno=%ld", count, a->arg); errno = (int)a->arg; return -1;
         case 'e': sticky_eof = 1; tr("r %zu 0 early-eof", count); return 0;
@@ -169,6 +175,7 @@ static ssize_t do_write(int fd, const void *buf, size_t count) {
     size_t want = count;
     if (a) {
         switch (a->kind) {
+        case 'p': break;
         case 'i': tr("w%d %zu -1 EINTR", fd, count); errno = EINTR; return -1;
         case 'x': tr("w%d %zu -1 errno=%ld", fd, count, a->arg); errno = (int)a->arg; return -1;
         case 'k': if ((size_t)a->arg < want) want = (size_t)a->arg; if (want == 0 && count > 0) want = 1; break;
